@@ -1,6 +1,7 @@
 package sess
 
 import (
+	"math"
 	"fmt"
 	"strconv"
 	"testing"
@@ -32,6 +33,12 @@ func genHistory(t *rapid.T, k HistKnobs) *Script {
 	cfg := genCfg(t, k.Role)
 	if k.NoGoodLogon && cfg.Approve == "all" && rapid.Bool().Draw(t, "refuseAll") {
 		cfg.Approve = "none"
+	}
+	hbKinds := allHB
+	if cfg.Role == "acceptor" && rapid.IntRange(0, 9).Draw(t, "anyInterval") == 0 {
+		// an acceptor whose limits allow any interval at all
+		cfg.HBMax = math.MaxInt64
+		hbKinds = []string{"min", "inside", "huge", "huge", "text", "absent", "below"}
 	}
 	if cfg.Role == "initiator" {
 		// the initiator's own credentials: both, only a password (token-style), only a user name, none
@@ -67,7 +74,7 @@ func genHistory(t *rapid.T, k HistKnobs) *Script {
 		switch kind := rapid.IntRange(0, 99).Draw(t, "stepKind"); {
 		case kind < 30: // a Logon of some sort
 			spec := LogonSpec{
-				HB:     rapid.SampledFrom(allHB).Draw(t, "specHB"),
+				HB:     rapid.SampledFrom(hbKinds).Draw(t, "specHB"),
 				Method: rapid.SampledFrom(allMethod).Draw(t, "specMethod"),
 				Creds:  rapid.SampledFrom(allCreds).Draw(t, "specCreds"),
 			}
